@@ -432,6 +432,9 @@ def div_literals(expr, fp_arithmetic=False):
         return sym.Product((-1, div_literals(q, fp_arithmetic=fp_arithmetic)))
 
     if isinstance(expr.numerator, sym.FloatLiteral) or isinstance(expr.denominator, sym.FloatLiteral):
+        literal_types = (sym.IntLiteral, sym.FloatLiteral)
+        if not (isinstance(expr.numerator, literal_types) and isinstance(expr.denominator, literal_types)):
+            return expr
         if not fp_arithmetic:
             return expr
         return sym.Literal(float(expr.numerator.value) / float(expr.denominator.value))
